@@ -196,7 +196,7 @@ class VGen:
         if k == "float":
             return ["float", r.choice([0.0, -0.0, 1.5, -2.25, 1e300, 5e-324, 3.0])]
         if k == "string":
-            return ["string", r.choice(["", "hello", "ünïcødé ✓", "a\"b\\c", "line\nbreak"])]
+            return ["string", r.choice(["", "hello", "ünïcødé ✓", "a\"b\\c", "line\nbreak", " lead and trail \n"])]
         if k == "array":
             return ["array", t[2], [self.value(t[2], depth - 1) for _ in range(t[1])]]
         if k in ("list", "sarray"):
